@@ -24,10 +24,11 @@ partial def jDetail (j : Json) : Detail :=
   match j with
   | .null => .null
   | _ =>
-    match j.getObjVal? "s", j.getObjVal? "l" with
-    | .ok s, _ => .leaf (jText s)
-    | _, .ok l => .list ((jList l).map jDetail)
-    | _, _ => .node (jKvs (jField j "d"))
+    match j.getObjVal? "s", j.getObjVal? "l", j.getObjVal? "n" with
+    | .ok s, _, _ => .leaf (jText s)
+    | _, .ok l, _ => .list ((jList l).map jDetail)
+    | _, _, .ok n => (match jList n with | [t, .bool b] => .scalar (jText t) b | _ => .null)
+    | _, _, _ => .node (jKvs (jField j "d"))
 partial def jKvs (j : Json) : List (Text × Detail) :=
   (jList j).map fun kv => match jList kv with
     | [k, v] => (jText k, jDetail v)
@@ -99,7 +100,10 @@ partial def jDoc (j : Json) : Doc :=
     | _, .ok i, _, _ => .int (match i.getInt? with | .ok n => n | .error _ => 0)
     | _, _, .ok m, _ => .map ((jList m).map fun kv => match jList kv with | [k, v] => (jText k, jDoc v) | _ => ([], .null))
     | _, _, _, .ok l => .list ((jList l).map jDoc)
-    | _, _, _, _ => .null
+    | _, _, _, _ =>
+      match j.getObjVal? "n" with
+      | .ok n => (match jList n with | [t, .bool b] => Doc.scalar (jText t) b | _ => .null)
+      | .error _ => .null
 
 def jWire (j : Json) : Wire :=
   match j.getObjVal? "xml", j.getObjVal? "doc", j.getObjVal? "text" with
@@ -116,6 +120,7 @@ partial def detailJson : Detail → Json
   | .leaf t => Json.mkObj [("s", textJson t)]
   | .node kvs => Json.mkObj [("d", kvsJson kvs)]
   | .list items => Json.mkObj [("l", Json.arr (items.map detailJson).toArray)]
+  | .scalar t fl => Json.mkObj [("n", Json.arr #[textJson t, Json.bool fl])]
 partial def kvsJson (kvs : List (Text × Detail)) : Json :=
   Json.arr (kvs.map fun (k, d) => Json.arr #[textJson k, detailJson d]).toArray
 end
@@ -140,6 +145,7 @@ partial def docJson : Doc → Json
   | .int n => Json.mkObj [("i", Json.num (JsonNumber.fromInt n))]
   | .map kvs => Json.mkObj [("m", Json.arr (kvs.map fun (k, v) => Json.arr #[textJson k, docJson v]).toArray)]
   | .list xs => Json.mkObj [("l", Json.arr (xs.map docJson).toArray)]
+  | .scalar t fl => Json.mkObj [("n", Json.arr #[textJson t, Json.bool fl])]
 
 def wireJson : Wire → Json
   | .xml x => Json.mkObj [("xml", xmlJson x)]
@@ -195,6 +201,16 @@ def step (j : Json) : Json :=
     | some cf => Json.mkObj [("ok", Json.mkObj [("code", textJson cf.code), ("str", textJson cf.str),
         ("detail", optKvsJson cf.detail)])]
     | none => Json.mkObj [("raises", true)]
+  | "ctor" =>
+    let b : Builtin := match getStr j "cls" with
+      | "InvalidCredentialsError" => .invalidCredentials | "RequestTooLongError" => .requestTooLong
+      | "RequestNotAllowed" => .requestNotAllowed | "ArgumentError" => .argumentError
+      | "InvalidInputError" => .invalidInput | "MissingFieldError" => .missingField
+      | "ValidationError" => .validationError | "InternalError" => .internalError
+      | "ResourceNotFoundError" => .resourceNotFound | "RespawnError" => .respawn
+      | _ => .resourceAlreadyExists
+    let ov : Option Text := match jField j "code" with | .null => none | c => some (jText c)
+    Json.mkObj [("ok", textJson (ctorCode F b ov))]
   | "strip" => Json.mkObj [("ok", textJson (strip (jText (jField j "s"))))]
   | op => Json.mkObj [("driver_error", Json.str s!"unknown op {op}")]
 
